@@ -138,7 +138,7 @@ def run_model_case(case):
             signal.alarm(0)
         for text in case['texts']:
             r = {}
-            signal.alarm(case.get('timeout', 20))
+            signal.alarm(case.get('timeout', 20) if out.get('timeouts', 0) < 2 else 1)
             try:
                 sem = make_semantics(case.get('sem'), case.get('actrule', '*'))
                 kw = dict(settings)
@@ -157,6 +157,7 @@ def run_model_case(case):
                     r['wrapped'] = w
             except _Timeout:
                 r.setdefault('plain', {'k': 'exc', 'cls': 'Timeout'})
+                out['timeouts'] = out.get('timeouts', 0) + 1
             finally:
                 signal.alarm(0)
             out['res'].append(r)
@@ -552,7 +553,8 @@ def run_error_case(case):
             if how.endswith('+pi'):
                 kw['parseinfo'] = True
             inp = Buffer(text) if how.startswith('buffer') else text
-            signal.alarm(case.get('timeout', 20))
+            # a grammar that hangs is reported by its first time-outs; the remaining parses of the case get a short fuse
+            signal.alarm(case.get('timeout', 20) if out.get('timeouts', 0) < 2 else 1)
             try:
                 v = model.parse(inp, **kw)
                 o = {'k': 'ok', 'v': norm(v)}
@@ -574,6 +576,7 @@ def run_error_case(case):
                 o = {'k': 'exc', 'cls': 'RecursionError'}
             except _Timeout:
                 o = {'k': 'exc', 'cls': 'Timeout'}
+                out['timeouts'] = out.get('timeouts', 0) + 1
             except Exception as e:  # noqa: BLE001
                 o = {'k': 'exc', 'cls': type(e).__name__, 'msg': str(e)[:160]}
             finally:
